@@ -1,4 +1,5 @@
 import AbraProofs.Lemmas.CompileSim6
+import AbraModel.Pending
 /-!
 # C02 — compiled programs compute what the language reference specifies (fragment F0)
 
@@ -17,6 +18,9 @@ environments and all fuel; loops are handled by induction on the fuel.
 * `C02_compile_correct_F0_program` — the same for a whole `<main>` run from the initial state, no side condition.
 * `C02_d21_witness_repaired`, `C02_break_pops_pending` — the former D21 counterexample (not DepthSafe) now prints
   105 on both sides; `break`/`continue` compiled at depth `d` are `d` `Pop`s and the jump.
+* `C02_pending_*` — the operand-stack depth model `Abra.Pending` (every construct of the language, not only F0; tied to
+  the Pops the real translator emits for every break/continue of the pending-jump family): the clauses the translator's
+  hand adjustments have to meet, and its agreement with the F0 compile model on `break`/`continue`.
 * `C02_reg_roundtrip`, `C02_reg_encode_range` — `Reg::encode` and the decoding in `load_offset_or_top`.
 
 -- OPEN: `compile_correct` for the whole core language (functions, heap data, closures, match) is not
@@ -267,3 +271,45 @@ example : semOut (Sem.run 100 ⟨[], [], loopExample⟩) = some ["8\n"] ∧
 example : encodeReg (.off (-3)) = some 32765 ∧ decodeReg 32765 = .off (-3) ∧ encodeReg (.off 16384) = none := by decide
 
 end Abra.Compile
+
+namespace Abra.Pending
+
+/-- **A `break`/`continue` pops exactly the operands pending since the loop body began**, and the F0 compile model
+    emits that many `Pop`s (`Abra.Compile.compS`, the code the simulation theorem is about). -/
+theorem C02_pending_jump_at_depth (d : Nat) (Γ : Abra.Compile.TEnv) (next : Nat) (il : Bool) :
+    popsS d .brk = [d] ∧ popsS d .cont = [d] ∧
+    Abra.Compile.compS Γ next d il .break_ = some (List.replicate d .pop ++ [.jump .brk], .unit, Γ, next) :=
+  ⟨rfl, rfl, rfl⟩
+
+/-- **The constant pushed by hand for unary minus is a pending operand** while the operand runs — for `int`
+    (`PushInt 0`) and for `float` (`PushFloat -0.0`) alike (the line removed by seed C01-r3), and it adds up when
+    negations nest. -/
+theorem C02_pending_neg_constant_counted (d n : Nat) (v : Bool) (e : PE) :
+    popsE d (.pre n v e) = popsE (d + n) e ∧
+    popsE d (.pre 1 true (.pre 1 true (.block true (PSs.ofList [.brk])))) = [d + 2] :=
+  ⟨by simp [popsE], by simp [popsE, popsSs, popsS, PSs.ofList]⟩
+
+/-- **Operands wait for the operands to their right**, void ones take no slot. -/
+theorem C02_pending_operands_wait (d : Nat) (v : Bool) (a b : PE) :
+    popsE d (.seq v (PEs.ofList [a, b])) = popsE d a ++ popsE (if a.valued then d + 1 else d) b := by
+  simp [popsE, popsArgs, PEs.ofList, bump]
+
+/-- **`a[i] op= e`**: array and index go straight into their temporaries — nothing is pending while the index
+    expression runs — and array, index and old element wait for the right-hand side. -/
+theorem C02_pending_compound_index (d : Nat) (a i rhs : PE) :
+    popsS d (.compoundIndex a i rhs) = popsE d a ++ popsE d i ++ popsE (d + 3) rhs := by
+  simp [popsS]
+
+/-- **A loop body starts a new count; the loop head still belongs to the enclosing loop.** -/
+theorem C02_pending_loop_resets (d : Nat) (c it : PE) (body : PSs) :
+    popsS d (.while_ c body) = popsE d c ++ popsSs 0 body ∧ popsS d (.for_ it body) = popsE d it ++ popsSs 0 body := by
+  simp [popsS]
+
+/-- the former D21 witness in the depth model: `100 + { while true { s + { if true { break } else { }; 1 } }; 5 }` —
+    `100` was pushed before the loop body began and stays, `s` is the one operand the `break` has to drop -/
+example : popsSs 0 (PSs.ofList [.let_ (.seq true (PEs.ofList [.leaf true, .block true (PSs.ofList [
+      .while_ (.leaf true) (PSs.ofList [.expr (.seq true (PEs.ofList [.leaf true, .block true (PSs.ofList [
+        .expr (.ite false (.leaf true) (.block false (PSs.ofList [.brk])) (.block false .nil)), .expr (.leaf true)])]))]),
+      .expr (.leaf true)])]))]) = [1] := by decide
+
+end Abra.Pending
